@@ -2,7 +2,7 @@
    proofs/IntervalsProofs.v, the model in model/Intervals.v. *)
 From Coq Require Import List Bool Arith Permutation PrimFloat.
 From V.model Require Import Intervals.
-From V.proofs Require Import IntervalsProofs.
+From V.proofs Require Import IntervalsProofs FloatOrder.
 Import ListNotations.
 
 Section Abstract.
@@ -88,6 +88,33 @@ Theorem C10_number_model_one_edge_vector : forall n r im v0 v1 mnp mni data,
              (number_refs r (fst (fst (number_edges v0 v1 n))) (snd (fst (number_edges v0 v1 n)))) data)).
 Proof. intros. unfold number_slice. destruct (number_edges v0 v1 n) as [[s w] e]. reflexivity. Qed.
 
+(* ---- binary64: PrimFloat.leb IS transitive on all floats and total on non-NaN floats (Flocq), so the
+   abstract theorems above hold verbatim for the executable model that is run against the implementation *)
+Theorem C10_binary64_order_transitive : forall a b c : PrimFloat.float,
+  PrimFloat.leb a b = true -> PrimFloat.leb b c = true -> PrimFloat.leb a c = true.
+Proof. exact fleb_trans. Qed.
+Theorem C10_binary64_order_total : forall a b : PrimFloat.float, PrimFloat.is_nan a = false -> PrimFloat.is_nan b = false ->
+  PrimFloat.leb a b = false -> PrimFloat.leb b a = true.
+Proof. exact fleb_total. Qed.
+Theorem C10_binary64_partition_right_open : forall R e a (refs : list R) data j d0,
+  sorted PrimFloat.float fleb (a :: e) -> length refs = length (intervals PrimFloat.float (a :: e)) -> j < length data ->
+  fleb a (nth j data d0) = true -> ltb PrimFloat.float fleb (nth j data d0) (last (a :: e) a) = true ->
+  rows_true_at PrimFloat.float j (rows_of PrimFloat.float fleb RightOpen false (a :: e) refs data) = 1.
+Proof. exact (fun R => @partition_right_open PrimFloat.float fleb fleb_trans R). Qed.
+Theorem C10_binary64_partition_include_max : forall R e a b (refs : list R) data j d0,
+  sorted PrimFloat.float fleb (a :: b :: e) -> length refs = length (intervals PrimFloat.float (a :: b :: e)) -> j < length data ->
+  fleb a (nth j data d0) = true -> fleb (nth j data d0) (last (b :: e) b) = true ->
+  rows_true_at PrimFloat.float j (rows_of PrimFloat.float fleb RightOpen true (a :: b :: e) refs data) = 1.
+Proof. exact (fun R => @partition_include_max PrimFloat.float fleb fleb_trans R). Qed.
+(* with nothing dropped the Width slicer's model returns exactly these rows *)
+Theorem C10_width_slice_nodrop : forall width r ro vmin vmax data,
+  width_slice width r ro vmin vmax 0 0 data =
+  let dmin := match vmin with Some v => v | None => 0%float end in
+  let dmax := match vmax with Some v => v | None => FloatBits.fmax data end in
+  Some (rows_of PrimFloat.float fleb (if ro then RightOpen else LeftOpen) false (snd (width_edges dmin dmax width))
+                (width_refs r (fst (width_edges dmin dmax width)) width) data).
+Proof. exact width_slice_nodrop. Qed.
+
 (* non-vacuity: a concrete edge vector and datum meeting every hypothesis (nat order) *)
 Example C10_nonvacuous :
   sorted nat Nat.leb [0; 2; 4; 6] /\
@@ -109,3 +136,8 @@ Print Assumptions C10_ppi_partition.
 Print Assumptions C10_ppi_aligned.
 Print Assumptions C10_width_model_one_edge_vector.
 Print Assumptions C10_number_model_one_edge_vector.
+Print Assumptions C10_binary64_order_transitive.
+Print Assumptions C10_binary64_order_total.
+Print Assumptions C10_binary64_partition_right_open.
+Print Assumptions C10_binary64_partition_include_max.
+Print Assumptions C10_width_slice_nodrop.
